@@ -964,6 +964,24 @@ func scenarioList() []scenario {
 		steps = append(steps, feed(ibbDataMsg("s1", 0)), feed(plain), "releasewrites", auto("<data", "result", ""), "wait:ibbwrite.in")
 		l = append(l, sc("hold-writes-during-ibbwrite", steps...))
 	}
+	// --- the peer answers (or guesses the id of) a request that is still being transmitted, then
+	// the requester gives up without ever receiving: its write fails, or its context ends.  The
+	// serve loop has looked the request up and offers the response to a party that never takes
+	// it; it must be released by the requester's departure ----------------------------------
+	for _, x := range [][3]string{{"uiq", "q1", versionPayload}, {"roster", "q2", rosterPayload}, {"pubsub", "q3", pubsubPayload}, {"cmd", "q4", itemsPayload}, {"disco", "q5", itemsPayload}, {"cmdexec", "q6", commandPayload}} {
+		for _, typ := range []string{"result", "error"} {
+			payload := x[2]
+			if typ == "error" {
+				payload = errPayload
+			}
+			l = append(l,
+				scNoProbe("early-"+typ+"-then-write-fails-"+x[0], "holdwrites", "call:"+x[0], "awaitblocked", feed(iq(typ, x[1], payload)), "failwrites", "releasewrites", "wait:"+x[0],
+					feed(iq("get", "p2", `<ping xmlns="urn:xmpp:ping"/>`)), feed(plain)),
+				sc("early-"+typ+"-then-cancelled-"+x[0], "holdwrites", "call:"+x[0], "awaitblocked", feed(iq(typ, x[1], payload)), "cancel:"+x[0], "releasewrites", "wait:"+x[0],
+					feed(iq(typ, x[1], payload))),
+			)
+		}
+	}
 	// --- late stanzas: after every scenario above, result / error stanzas of every kind that reuse
 	// the ids of the requests the session has sent --------------------------------------------
 	n := len(l)
